@@ -250,25 +250,18 @@ theorem queue_finishLoop (g : Graph) (s : State) : (finishLoop g s).queue = s.qu
 theorem queue_submitOne (s : State) (x : Proxy) : (submitOne s x).queue = s.queue := rfl
 
 
-theorem queue_releaseOne (s : State) (x : Proxy) : (releaseOne s x).queue = s.queue := rfl
-
+theorem queue_releaseSubmitOne (rel : Bool) (s : State) (x : Proxy) :
+    (releaseSubmitOne rel s x).queue = s.queue := rfl
 
 theorem queue_releaseAndSubmit (s : State) : (releaseAndSubmit s).queue = s.queue := by
   unfold releaseAndSubmit
-  extract_lets trig s1 s2 pre
+  extract_lets trig s1 pre
   have h1 : s1.queue = s.queue := rfl
-  have h2 : s2.queue = s.queue := by
-    simp only [s2]
-    split
-    · exact h1
-    · exact foldl_inv (fun st : State => st.queue = s.queue) releaseOne
-        (fun st x h => (queue_releaseOne st x).trans h) _ _ h1
   split
-  · exact h2
-  · show (List.foldl submitOne s2 pre).queue = s.queue
-    exact foldl_inv (fun st : State => st.queue = s.queue) submitOne
-      (fun st x h => (queue_submitOne st x).trans h) _ _ h2
-
+  · exact h1
+  · show (List.foldl (releaseSubmitOne (!s1.paused)) s1 pre).queue = s.queue
+    exact foldl_inv (fun st : State => st.queue = s.queue) (releaseSubmitOne (!s1.paused))
+      (fun st x h => (queue_releaseSubmitOne _ st x).trans h) _ _ h1
 
 theorem queue_setHoldPoint (s : State) (p : Int) : (setHoldPoint s p).queue = s.queue := by
   unfold setHoldPoint
